@@ -19,7 +19,11 @@ PROP = {
                       "barrier are compared number by number with the extracted model (barrier = Watch.quiesce, proved to be small "
                       "steps) and re-evaluated in the kernel on a sample; un-barriered observations are checked by trace acceptance (the "
                       "implementation's observation is written into the case and the model decides admissibility); an independent oracle "
-                      "states the property on every implementation trace.",
+                      "states the property on every implementation trace. Item size limits and watch::forward are covered by a second, small executable description "
+                      "(Run/RunWatchSize.v, no theorems: cells joined by links with a sender-side limit -- a larger value ends the stream "
+                      "behind that link only -- and a receiver-side limit -- a larger value is shown as an error value and skipped) "
+                      "that is compared number by number with the real channel on programs run at quiescence, plus an oracle for the "
+                      "un-barriered programs.",
         "level_note": "Trusted: Coq kernel (+vm_compute), extraction (ExtrOcamlBasic only) and mrun glue (cross-checked in-kernel on a sample), "
                       "harness, its transport and the quiescence barrier. Tokio's watch is modelled, not verified: T1 changed() reports an "
                       "unseen version before closure, T2 send fails without storing iff there is no receiver / closed() completes iff "
@@ -28,7 +32,10 @@ PROP = {
                       "send error). Liveness is stated at quiescence plus progress; termination of the forwarding steps without new "
                       "updates is not proved (the fuelled runner reports exhaustion as 95; never observed). The acceptance rule for "
                       "racy observations (Run/RunWatch.v) is an interval abstraction of the model, validated, not proved complete. "
-                      "ReceiverStream, wait_for, mark_changed/unchanged, forward() and max_item_size handling are outside the model.",
+                      "ReceiverStream, wait_for, mark_changed/unchanged are outside the model; forward() and max_item_size handling are "
+                      "outside the proved model Rch/Watch.v and are only tested against Run/RunWatchSize.v (a validated description, "
+                      "nothing proved about it; values below the chunking threshold only, one connection, limits 96/400/3000/default) "
+                      "and the oracle of harness/src/watch_size.rs.",
         "trivial_sig": r"^exact:hops0:tx0:drop0:burst[01]:",
         "disagreement_is_violation": None,
         "rule": "cases from one PRNG (VERIF_SEED): initial payload, 0-2 early receiver transfers, then 6-34 steps drawn from: bursts of 1-5 "
@@ -39,7 +46,22 @@ PROP = {
                 "a step with probability 10/25/50/80 % (per case); every 12th case is repeated as an oracle-only stream with connection "
                 "failures (prefix fault:); signature = class (exact/race/fault), longest chain of connections between the sender and a live receiver, sender transfers, "
                 "drop kind (2 = right after an update), longest burst, stall, racy and stale observation counts; a case is "
-                "non-trivial unless it has no remote receiver, no sender transfer, no sender drop and no burst; distinct = distinct input",
+                "non-trivial unless it has no remote receiver, no sender transfer, no sender drop and no burst; distinct = distinct input. "
+                "Every 4th case is followed by a program with item size limits (prefix size:, harness/src/watch_size.rs): source = "
+                "watch::channel or a Tokio watch channel made remote by watch::forward; 1-3 initial and further transfers of receiver "
+                "clones over one connection (either direction, chains up to 3 links), each serialized as Receiver<_,_,S> and "
+                "deserialized as Receiver<_,_,R> with S, R drawn independently from 96/400/3000/default (half of them with S >= R), "
+                "local clones, drops; 4-14 steps of 1-3 published values whose serialized size is small (45 %), a limit -1/+0/+1/+7 "
+                "(45 %) or above every restricted limit (10 %), borrow_and_update / changed polls, yields, source drop; 3 in 5 of these "
+                "run with a barrier after every operation (size:quiet, compared exactly with Run/RunWatchSize.v: observations and a "
+                "final dump of value, closed flag, unseen flag per receiver), the others only with the barriers the program contains "
+                "(size:racy, output 96, oracle only). Oracle for both: shown values were stored and never go back; an error value "
+                "needs a stored value exceeding a receiver-side limit on the receiver's path; at every barrier a receiver whose "
+                "stream has ended while the source is alive needs a value exceeding a sender-side limit on ITS OWN path, every other "
+                "receiver holds the value stored last (or the error value if that value exceeds only a receiver-side limit on its path); "
+                "after the final drop of the source no receiver stays open and Forwarding has resolved, with an error only if "
+                "some value exceeded a sender-side limit. Signature size:quiet|racy:sender|forward:links:depth:cut (receivers ended "
+                "by a limit):err (error values shown):burst",
         "assumptions": [
             "Tokio watch semantics T1-T3 as stated in Rch/Watch.v",
             "FIFO exactly-once delivery on the remote channel of a link (C01, C04); postbag round-trips u64",
